@@ -38,15 +38,31 @@ STEP_BUDGET = 1500
 # ------------------------------------------------------------------------------------------------
 # case generation
 
+def rto_like(rng):
+    """a retransmission timeout as a TCP sender computes it: srtt + 4*rttvar after a few RTT samples (gains 1/8, 1/4), sometimes backed off"""
+    srtt, dev = rng.uniform(0.01, 1.0), rng.uniform(0.0, 0.3)
+    for _ in range(rng.randint(1, 4)):
+        err = rng.uniform(0.005, 1.5) - srtt
+        srtt += err / 8
+        dev += (abs(err) - dev) / 4
+    return (srtt + 4 * dev) * rng.choice([1, 1, 2, 4])
+
+
 def gen_timeout(rng):
     x = rng.random()
-    if x < 0.72:
+    if x < 0.62:
         return rng.choice(DY)
-    if x < 0.8:
+    if x < 0.7:
         return rng.randint(1, 3)
-    if x < 0.9:
+    if x < 0.78:
         return round(rng.uniform(0.05, 3), rng.choice([1, 2]))
-    return rng.uniform(0.001, 3)
+    if x < 0.86:
+        return rng.uniform(0.001, 3)
+    # values that lie on no decimal grid: thirds, sevenths, float noise (0.1 + 0.2), computed RTOs (sub-nanosecond timeouts: gen_case) -
+    # "exactly once at t0 + timeout" is an equality of floats, whatever the value
+    if x < 0.93:
+        return rng.choice([1 / 3, 2 / 3, 1 / 7, 0.1 + 0.2, 0.1 * 3, 1 / 3 + 1 / 7, 1.1 - 1.0, 2.675])
+    return rto_like(rng)
 
 
 def gen_delay(rng):
@@ -73,12 +89,14 @@ def gen_args(rng):
 
 def gen_case(rng, cid):
     x = rng.random()
-    t0 = 0 if x < 0.6 else (rng.choice([0.5, 1, 2, 2.5]) if x < 0.85 else rng.uniform(0, 5))
+    t0 = 0 if x < 0.6 else (rng.choice([0.5, 1, 2, 2.5]) if x < 0.8 else rng.choice([0.1, 1 / 3, 0.7, 0.1 + 0.2]) if x < 0.87 else rng.uniform(0, 5))
     tmo = gen_timeout(rng)
     if rng.random() < 0.02:
         tmo = rng.choice([0, -1, -0.5, 0.0])       # refused by the constructor
     c = {'cid': str(cid), 't0': t0, 'timeout': tmo, 'auto': rng.random() < 0.5,
          'args': gen_args(rng), 'actors': [], 'cb': [], 'direct': [], 'horizon': 0}
+    if not c['auto'] and tmo > 0 and rng.random() < 0.04:
+        c['timeout'] = rng.choice([1e-10, 3e-10, 2.0 ** -40, 4.9e-10])      # a one-shot timer far below a nanosecond (positive: accepted)
     budget = rng.randint(0, 10)           # stop/restart calls of this history
     if rng.random() < 0.12 and budget:
         k = rng.randint(1, min(3, budget))
@@ -205,6 +223,11 @@ class Run:
         self.fires_now = []
         self.cb_count = 0
         self.failed = None
+
+    def runaway(self):
+        """the callback has been invoked more than 40 times at one and the same instant (a timer never has two expiries at one instant)"""
+        f = [e for e in self.events[-60:] if e[0] == 'fire']
+        return len(f) > 40 and all(bits(e[1]) == bits(f[-1][1]) for e in f[-41:])
 
     # ---- public snapshots -----------------------------------------------------------------
     def track(self):
@@ -338,6 +361,8 @@ class Run:
                 steps += 1
                 if not self.one_step():
                     break
+                if any(m.runaway() for m in self.members):
+                    break                   # a timer keeps firing at one and the same instant: the history so far is what the oracle judges
         for m in self.members:
             m.end = env.now
             m.drained = (not ok) or not (env.peek() <= horizon)
@@ -451,6 +476,7 @@ def oracle(run, stats=None):
     stopped = False
     lenient = False               # a one-shot timer that has fired was restarted from outside: unconstrained
     last_fire = None
+    last_arm = t0
     for e in ev:
         if e[0] == 'fire':
             _, t, a, kw = e
@@ -460,11 +486,15 @@ def oracle(run, stats=None):
                 fails.append({'what': f'callback fired at t={t} after stop()', 'signature': 'fired-after-stop'})
             elif not lenient:
                 if pending is None:
-                    fails.append({'what': f'callback fired at t={t} although no expiry is pending '
-                                          f'(previous firing at {last_fire})', 'signature': 'unexpected-fire'})
+                    again = (f': a one-shot timer (timeout {timeout!r}, armed at {last_arm!r}) invokes its callback exactly once, it had fired at {last_fire!r}'
+                             if last_fire is not None and not auto else f' (previous firing at {last_fire})')
+                    fails.append({'what': f'callback fired at t={t!r} although no expiry is pending{again}', 'signature': 'unexpected-fire'})
                 elif bits(t) != bits(pending):
-                    fails.append({'what': f'callback fired at t={t}, expected at {pending}', 'signature': 'fired-at-wrong-instant'})
+                    fails.append({'what': f'callback fired at t={t!r}, expected exactly at {pending!r} = {last_arm!r} + {timeout!r} '
+                                          f'(instant of creation / restart / previous firing + timeout, as floats)', 'signature': 'fired-at-wrong-instant'})
             last_fire = t
+            if auto:
+                last_arm = t
             pending = (t + timeout) if auto else None
         elif e[0] == 'call':
             _, t, kind, tau, in_cb = e
@@ -487,6 +517,7 @@ def oracle(run, stats=None):
             else:
                 if pending is not None or in_cb:
                     pending = t + tau
+                    last_arm = t
                 else:
                     lenient = True
                 timeout = tau
@@ -582,10 +613,15 @@ def timerk_impl(c):
     env = Environment()
     hist, fired, box = [], [0], {}
 
+    class FireBudget(BaseException):
+        pass
+
     def callback(*a):
         hist.append(f'fire {bits(env.now)}' if a == (c['arg'],) else f'fire-with-wrong-args {a}')
         k = fired[0]
         fired[0] += 1
+        if fired[0] > 6000 or (fired[0] > 50 and len(set(hist[-50:])) == 1):
+            raise FireBudget()          # env.run() would never return: the callback fires without end (50 times at one instant / 6000 times)
         op = c['cb'][k] if k < len(c['cb']) else None
         if op is not None:
             box['t'].stop() if op[0] == 'stop' else box['t'].restart(op[1])
@@ -606,8 +642,20 @@ def timerk_impl(c):
         if not c['ctl_first']:
             env.process(controller())
         with quiet():
+            # the run is env.run(until=...), preceded by up to 60000 single steps of everything due before `until` (the same run, C03):
+            # a timer process that keeps re-arming itself at one instant would otherwise never let run() return
+            steps = 0
+            while env.peek() < c['until'] and steps < 60000:
+                env.step()
+                steps += 1
+            if steps >= 60000:
+                raise FireBudget()
             env.run(until=c['until'])
         tag = 'RET'
+    except FireBudget:
+        tag = 'RAISED the-timer-process-never-comes-to-rest'
+        t = box.get('t')
+        del hist[60:]
     except BaseException as x:      # noqa - the property says nothing raises
         tag = f'RAISED {type(x).__name__}'
         t = box.get('t')
@@ -734,6 +782,9 @@ def compare_chunk(runs, model, disagreements, oracle_failures, hist, distinct, s
         hist['auto' if c['auto'] else 'one-shot'] += 1
         hist['args:' + ('none' if c['args'] is None else 'list' if isinstance(c['args'], list) else 'scalar')] += 1
         hist['timeout:dyadic' if float(c['timeout']) * 4 == int(float(c['timeout']) * 4) else 'timeout:arbitrary-float'] += 1
+        first = getattr(r, 't0', 0) + c['timeout']
+        if round(first, 9) != first:
+            hist['first expiry not on a nanosecond grid'] += 1
         n_intr = sum(1 for l in r.labels if l.startswith('intr '))
         hist['silent-interrupts-resolved-by-model'] += max(0, len(r.procs) - 1 - n_intr)
         key = json.dumps({k: v for k, v in top.items() if k != 'cid'}, sort_keys=True)
